@@ -286,9 +286,101 @@ def lfu(r, F):
               "the access rule of w-TinyLFU (refresh in window/protected, promote from probation, overflow protected only when over its share) is not followed", ln=g.lo)
 
 
+def ghost(r, F):
+    """S3-FIFO ghost queue: `push` makes room for the INCOMING entry (pops the oldest while weight + incoming > capacity), `update` shrinks to the new
+    capacity (pops while weight > capacity); the three pieces of state (queue, hash set, weight) move together."""
+    from sa import affine
+    from fractions import Fraction
+    G = EV + "::s3fifo::GhostQueue"
+    push, upd, pop = F.method(G, "push"), F.method(G, "update"), F.method(G, "pop")
+
+    def overflow_tests(host):
+        """comparisons in host, or in a GhostQueue helper it calls (not pop), of (weight [+ x]) with capacity -> [(fn, cmp, flipped, extra)] where extra is the
+        affine form, in host's terms, of what is added to the weight"""
+        out = []
+        cands = [(host, None)]
+        for b in host.calls():
+            g = F.callee_fn(b.term)
+            if g is not None and g.id != pop.id and (g.self_ty or "").startswith(G) and g.id != host.id:
+                cands.append((g, b))
+        for g, site in cands:
+            pops = [b.idx for b in g.calls() if F.callee_fn(b.term) is not None and F.callee_fn(b.term).id == pop.id]
+            for c in tables.comparisons(g):
+                if c.op not in ("Lt", "Le", "Gt", "Ge"):
+                    continue
+                a, b2 = affine.affine(g, c.lhs, depth=1), affine.affine(g, c.rhs, depth=1)
+                d = dict(a)
+                for k, v in b2.items():
+                    d[k] = d.get(k, Fraction(0)) - v
+                d = {k: v for k, v in d.items() if v != 0}
+                wk = [k for k in d if k.endswith(".weight")]
+                ck = [k for k in d if k.endswith(".capacity")]
+                if len(wk) != 1 or len(ck) != 1 or d[wk[0]] * d[ck[0]] != -1:
+                    continue
+                fl = d[wk[0]] < 0          # role A (weight side) is the rhs
+                sign = d[wk[0]]
+                extra = {k: v * sign for k, v in d.items() if k not in (wk[0], ck[0])}
+                if site is not None:
+                    # translate the helper's parameters into the caller's terms
+                    tr = {}
+                    for k, v in extra.items():
+                        idx = [i for i in range(1, g.argc + 1) if g.local_name(i) == k]
+                        if k == "1":
+                            tr["1"] = tr.get("1", Fraction(0)) + v
+                        elif idx:
+                            for kk, vv in affine.affine(host, site.term.args[idx[0] - 1], depth=1).items():
+                                tr[kk] = tr.get(kk, Fraction(0)) + v * vv
+                        else:
+                            tr["?" + k] = v
+                    extra = {k: v for k, v in tr.items() if v != 0}
+                out.append((g, c, fl, extra, pops))
+        return out
+
+    inc = push.local_name(3)
+    tests = overflow_tests(push)
+    r.require(len(tests) == 1, push, "ghost push: one overflow test", "a single (weight + incoming ? capacity) loop test", "GhostQueue::push has %d overflow tests" % len(tests), ln=push.lo)
+    for (g, c, fl, extra, pops) in tests:
+        tab = tables.table(g, c, fl, pops)
+        r.require(extra == {inc: Fraction(1)} and tab[:2] == ("no", "no") and tab[2] != "no", push, "ghost push: pop while weight + incoming > capacity",
+                  "compared quantity: weight + %s - capacity; table (<,=,>) -> pop: %s" % (affine.pretty(extra) if extra else "0", tab),
+                  "GhostQueue::push must make room for the incoming entry: it pops the oldest entries while weight + incoming > capacity; found the test `weight + (%s) ? capacity` with table (<,=,>) -> pop %s "
+                  "— the ghost queue then remembers more (or fewer) keys than the configured ghost ratio, which changes which re-inserted keys are routed to the main queue" % (affine.pretty(extra) if extra else "0", tab), ln=c.ln)
+    tests = overflow_tests(upd)
+    r.require(len(tests) == 1, upd, "ghost update: one overflow test", "a single (weight ? capacity) loop test", "GhostQueue::update has %d overflow tests" % len(tests), ln=upd.lo)
+    for (g, c, fl, extra, pops) in tests:
+        tab = tables.table(g, c, fl, pops)
+        r.require(not extra and tab[:2] == ("no", "no") and tab[2] != "no", upd, "ghost update: pop while weight > capacity", "table (<,=,>) -> pop: %s" % (tab,),
+                  "GhostQueue::update must shrink to the new capacity exactly (pop while weight > capacity); found `weight + (%s) ? capacity` -> %s" % (affine.pretty(extra) if extra else "0", tab), ln=c.ln)
+    cap = [u for u in tables.field_updates(upd, "capacity", G)]
+    r.require(len(cap) == 1 and 2 in backslice(upd, cap[0]["stmt"].rv.ops[0], "prov").args, upd, "ghost update stores the new capacity", "capacity := parameter", "GhostQueue::update does not store the new capacity", ln=upd.lo)
+    # state moves together
+    pb = push.calls_to(r"VecDeque::<T, A>::push_back$")
+    ins = push.calls_to(r"HashSet::<T, S, A>::insert$")
+    add = [u for u in tables.field_updates(push, "weight", G) if u["kind"] == "add"]
+    ok = len(pb) == 1 and len(ins) == 1 and len(add) == 1
+    if ok:
+        ok = {2, 3} <= set(backslice(push, pb[0].term.args[1], "dep").args) and 2 in backslice(push, ins[0].term.args[1], "prov").args and \
+            any(3 in backslice(push, o, "dep").args for o in add[0]["stmt"].rv.ops) and \
+            push.must_pass(pb[0].idx, [ins[0].idx]) and push.must_pass(pb[0].idx, [add[0]["block"]])
+    r.require(ok, push, "ghost push: queue, set and weight updated together", "push_back((hash, weight)), counts.insert(hash), weight += weight on the same paths",
+              "GhostQueue::push does not record (hash, weight) in the queue, the hash in the set and the weight in the total together", ln=push.lo)
+    pf = pop.calls_to(r"VecDeque::<T, A>::pop_front$")
+    rm = pop.calls_to(r"HashSet::<T, S, A>::remove$")
+    sub = [u for u in tables.field_updates(pop, "weight", G) if u["kind"] == "sub"]
+    ok = len(pf) == 1 and len(rm) == 1 and len(sub) == 1
+    if ok:
+        ok = any(bb == pf[0].idx for bb, _ in backslice(pop, rm[0].term.args[1], "prov").calls) and any(bb == pf[0].idx for o in sub[0]["stmt"].rv.ops for bb, _ in backslice(pop, o, "dep").calls)
+    r.require(ok, pop, "ghost pop: oldest first; set and weight follow the popped entry", "pop_front, counts.remove(its hash), weight -= its weight",
+              "GhostQueue::pop does not remove the OLDEST entry or does not take its hash out of the set / its weight out of the total", ln=pop.lo)
+    ct = F.method(G, "contains")
+    r.require(bool(ct.calls_to(r"HashSet::<T, S, A>::contains$")) and 2 in backslice(ct, ct.calls_to(r"HashSet::<T, S, A>::contains$")[0].term.args[1], "prov").args, ct, "ghost contains: by hash", "set membership of the hash",
+              "GhostQueue::contains does not test membership of the given hash", ln=ct.lo)
+
+
 def run(chk, F):
     chk.run_rule("C14.fifo", "FIFO: push back, pop front, no reordering on lookup", 4, fifo, F)
     chk.run_rule("C14.lru", "LRU: hint table, low-priority first, pop from the front, never the pin list, pool overflow only when over the share and re-run at every growth site, pin / unpin to the MRU end", 11, lru, F)
     chk.run_rule("C14.s3fifo", "S3-FIFO: ghost routing, small-first when over share, promotion at freq >= threshold else evict + ghost, main re-insertion while freq > 0, saturation", 6, s3fifo, F)
+    chk.run_rule("C14.ghost-queue", "S3-FIFO ghost queue: push makes room for the incoming entry (pop while weight + incoming > capacity), update shrinks exactly, queue / set / weight move together", 7, ghost, F)
     chk.run_rule("C14.sieve", "SIEVE: tail insert, scan from the hand or head, visited -> clear + advance, unvisited -> evict, hand := successor, lookups only mark", 5, sieve, F)
     chk.run_rule("C14.lfu", "w-TinyLFU: window admission and overflow, head-to-head sketch comparison (window evicted only when strictly colder), access table", 5, lfu, F)
